@@ -525,6 +525,19 @@ func (d *driver) liveOf(typ, pod string) bool {
 // ---------------------------------------------------------------- environment actions
 
 func (d *driver) deliverPod() {
+	// The pod informer calls its handlers one after the other: while the handler of a running pod's update (syncPodIP, which
+	// takes the pod lock) has not returned, no later pod event is delivered. (Release events are only queued by their handlers.)
+	if d.liveOf("syncpod", "") {
+		if r := d.runnable(); len(r) > 0 {
+			for _, oi := range r {
+				if oi.typ == "syncpod" {
+					d.step(oi, 0, 0)
+					return
+				}
+			}
+		}
+		return
+	}
 	e, ok := d.w.DeliverPodEvent()
 	if !ok {
 		return
@@ -1088,7 +1101,7 @@ func (d *driver) runTrace(id, length int) {
 	d.lagMode = d.rng.Intn(4) == 0
 	d.slowType = ""
 	if d.rng.Intn(3) == 0 {
-		d.slowType = []string{"resync", "apirelease", "unbind", "filter", "bind", "poolupsert", "reload"}[d.rng.Intn(7)]
+		d.slowType = []string{"resync", "apirelease", "unbind", "filter", "bind", "poolupsert", "reload", "preempt"}[d.rng.Intn(8)]
 	}
 	d.beginTrace(id, nil)
 	sc, w := d.sc, d.w
